@@ -75,6 +75,20 @@ STORES = {
 }
 
 
+def float_spelling(r, v):
+    """one of the spellings of the float v that Wa's scanner/parser accept: shortest decimal, integer token
+    (also for negative zero: `-0`), exponent form, hex float"""
+    import math
+    k = r.randrange(6)
+    if k == 0 and v == int(v) and abs(v) < 1e15:
+        return ('-' if math.copysign(1.0, v) < 0 else '') + str(abs(int(v)))      # an INT token after f32.const
+    if k == 1:
+        return v.hex()                                                             # 0x1.8p+1, -0x0.0p+0
+    if k == 2:
+        return '%.17e' % v
+    return repr(v)
+
+
 class Mod:
     def __init__(self):
         self.text = ''
@@ -182,7 +196,7 @@ class G:
         self.globals = [(i['name'], i['ty'], False) for i in m['imports'] if i['kind'] == 'global']
         # globals
         for _ in range(r.randrange(0, 3 + self.size)):
-            ty = r.choice(['i32', 'i32', 'i64', 'f32'] + (['f64'] if 'f64-global' in self.t else []))
+            ty = r.choice(['i32', 'i32', 'i64', 'f32', 'f64'] if 'no-f64-global' not in self.t else ['i32', 'i64', 'f32'])
             mut = r.random() < 0.5
             name = self.ident('g')
             exp = None
@@ -282,6 +296,10 @@ class G:
 
     def databytes(self):
         r = self.r
+        if self.size >= 2 and r.random() < 0.08:
+            n = r.choice([255, 256, 4095, 4096, 4097, 8192])
+            self.feat.add('data-long')
+            return bytes((i * 7 + 3) & 0xff for i in range(n))
         k = r.randrange(4)
         if k == 0:
             return bytes(r.randrange(256) for _ in range(r.randrange(0, 12)))
@@ -297,8 +315,14 @@ class G:
             return r.choice([0, 1, -1, 7, 255, 65536, 2147483647, -2147483648, r.randrange(-1 << 31, 1 << 31)])
         if ty == 'i64':
             return r.choice([0, 1, -1, 1 << 32, (1 << 63) - 1, -(1 << 63), r.randrange(-1 << 63, 1 << 63)])
-        # floats: values with short exact decimal spellings, plus some that need many digits
-        return r.choice([0.0, 1.0, -1.0, 1.5, -2.25, 0.1, 3.0e10, 1e-7, 123456.789, 16777216.0, 1e21, 2.5e-5])
+        # floats: values with short exact decimal spellings, some that need many digits, and the special ones
+        # (negative zero, denormals, extremes of the format; inf/nan have no spelling the parser accepts)
+        pool = [0.0, 1.0, -1.0, 1.5, -2.25, 0.1, 3.0e10, 1e-7, 123456.789, 16777216.0, 1e21, 2.5e-5,
+                -0.0, -0.0, 1e-45, -1e-45, 1.1754943508222875e-38, 3.4028234663852886e+38, -3.4028234663852886e+38, 16777217.0, 0.5]
+        if ty == 'f64':
+            pool += [5e-324, -5e-324, 2.2250738585072014e-308, 1.7976931348623157e+308, -1.7976931348623157e+308,
+                     9007199254740993.0, 0.30000000000000004]
+        return r.choice(pool)
 
     # ---------------------------------------------------------------- functions
     def func(self, name, sig):
@@ -468,10 +492,7 @@ class G:
                 return ['%s.const' % ty, '0x%x' % v]
             return ['%s.const' % ty, str(v)]
         self.feat.add('float-const')
-        s = repr(float(v))
-        if r.random() < 0.3 and float(v) == int(v) and abs(v) < 1e15:
-            s = str(int(v))                       # an INT token after f32.const
-        return ['%s.const' % ty, s]
+        return ['%s.const' % ty, float_spelling(r, float(v))]
 
     def stmt(self, d):
         """stack-neutral instruction sequence"""
@@ -668,7 +689,7 @@ def render(m, rng):
     for g in m['globals']:
         ty = '(mut %s)' % g['ty'] if g['mut'] else g['ty']
         v = g['val']
-        vs = repr(float(v)) if g['ty'] in ('f32', 'f64') else str(v)
+        vs = float_spelling(rng, float(v)) if g['ty'] in ('f32', 'f64') else str(v)
         ex = ' (export %s)' % _name_str(g['export']) if g['export'] else ''
         fields.append(('global', '(global $%s%s %s (%s.const %s))' % (g['name'], ex, ty, g['ty'], vs)))
     for f in m['funcs']:
@@ -869,3 +890,70 @@ def _mv_func(rng, k, res):
     if kind == 'if':
         return head + '    i32.const 1\n    if (result %s)\n%s\n    else\n%s\n    end\n  )' % (' '.join(res), consts, consts)
     return head + '    %s $L%d (result %s)\n%s\n    end\n  )' % (kind, k, ' '.join(res), consts)
+
+
+# ---------------------------------------------------------------------------------------------------
+# deterministic probes (always in the quick tier): special float constants and data segments of boundary lengths
+FLOAT_LITERALS = {
+    # spelling -> widths it is valid for.  inf / nan / nan:0x… / +1.5 / 0x10-after-f32.const have no spelling Wa's parser accepts.
+    'f32': ['0', '-0', '0.0', '-0.0', '-0e0', '-0x0p+0', '1', '-1', '1.5', '-2.25', '.5', '5.', '1e10', '1E5', '1e-10', '0x1p-3', '-0x1.8p1',
+            '1e-45', '-1e-45', '1.401298464324817e-45', '1.1754942e-38', '1.1754943508222875e-38', '3.4028234663852886e+38', '-3.4028235e38',
+            '16777216', '16777217', '9007199254740993', '123456789012345678901234567890', '0.1', '0.30000000000000004', '1_000', '1e-400', '-1e-400'],
+    'f64': ['0', '-0', '0.0', '-0.0', '-0e0', '-0x0p+0', '1', '-1', '1.5', '-2.25', '.5', '5.', '1e10', '1E5', '1e-10', '0x1p-3', '-0x1.8p1',
+            '5e-324', '-5e-324', '4.9406564584124654e-324', '2.2250738585072014e-308', '2.225073858507201e-308', '1.7976931348623157e+308',
+            '-1.7976931348623157e308', '16777217', '9007199254740993', '123456789012345678901234567890', '0.1', '0.30000000000000004',
+            '1_000', '1e-400', '-1e-400', '0x1.fffffffffffffp+1023', '0x0.0000000000001p-1022'],
+}
+
+
+def float_const_module():
+    L = [';; special float constants as instruction operands and as global initialisers', '(module $floats']
+    for ty in ('f32', 'f64'):
+        for i, lit in enumerate(FLOAT_LITERALS[ty]):
+            L.append('  (global $g_%s_%d %s%s (%s.const %s))' % (ty, i, '(mut %s)' % ty if i % 2 else ty, '', ty, lit))
+    for ty in ('f32', 'f64'):
+        L.append('  (func $consts_%s (export "consts_%s") (result %s)' % (ty, ty, ty))
+        for i, lit in enumerate(FLOAT_LITERALS[ty]):
+            L.append('    %s.const %s' % (ty, lit))
+            if i:
+                L.append('    %s.copysign' % ty)          # keeps the sign of every constant observable
+        L.append('  )')
+    L.append(')')
+    return '\n'.join(L) + '\n'
+
+
+def _pattern(n, salt):
+    special = b'"\\\'\n\t\x00\xff;()$ '
+    return bytes(special[(i // 7) % len(special)] if i % 7 == salt % 7 else (i * 7 + 3 + salt) & 0xff for i in range(n))
+
+
+def data_boundary_module(lengths, pages):
+    """data segments of the given lengths (all 256 byte values, quotes, backslashes), laid out one after the other"""
+    L = [';; data segments of boundary lengths %s' % list(lengths), '(module $databounds', '  (memory %d)' % pages]
+    off = 16
+    for k, n in enumerate(lengths):
+        b = _pattern(n, k)
+        # mixed spelling: raw printable characters, named escapes, two-digit hex escapes
+        parts = []
+        for i, c in enumerate(b):
+            ch = chr(c)
+            if ch == '"':
+                parts.append('\\"')
+            elif ch == '\\':
+                parts.append('\\\\')
+            elif ch == '\n' and i % 2:
+                parts.append('\\n')
+            elif 32 <= c < 127 and i % 3:
+                parts.append(ch)
+            else:
+                parts.append('\\%02x' % c)
+        L.append('  (data (i32.const %d) "%s")' % (off, ''.join(parts)))
+        off += n + 5
+    L.append('  (func $peek (export "peek") (param $a i32) (result i32) local.get $a i32.load8_u)')
+    L.append(')')
+    return '\n'.join(L) + '\n'
+
+
+FIXED['float-consts'] = float_const_module()
+FIXED['data-lengths-block'] = data_boundary_module([0, 1, 255, 256, 4095, 4096, 4097, 8191, 8192, 8193, 12288], 2)
+FIXED['data-lengths-64k'] = data_boundary_module([65535, 65536, 65537, 4096], 4)
